@@ -381,3 +381,87 @@ pub fn sweep_nopanic(ctx: &Ctx) {
 pub fn sweep_budget(ctx: &Ctx) {
     sweep(ctx, Mode::Budget);
 }
+
+// ------------------------------------------------------------------------------------------
+// counters: a file of more than 2^31 (and, as far as a run can go, more) pages
+
+/// A valid E57 page stream that exists only as a formula: page 0 carries a file header announcing
+/// 52-byte pages (the smallest page that holds the header fields read without the checksum layer),
+/// every other page is 48 zero bytes plus their checksum.
+struct FormulaDevice {
+    pos: u64,
+    len: u64,
+    first: [u8; 52],
+    other: [u8; 52],
+    pub reads: u64,
+}
+impl FormulaDevice {
+    fn new(pages: u64) -> Self {
+        let seal = |payload: &[u8; 48]| -> [u8; 52] {
+            let mut p = [0u8; 52];
+            p[..48].copy_from_slice(payload);
+            p[48..].copy_from_slice(&e57spec::crc::crc32c(payload).to_be_bytes());
+            p
+        };
+        let mut h = [0u8; 48];
+        h[..8].copy_from_slice(b"ASTM-E57");
+        h[8..12].copy_from_slice(&1u32.to_le_bytes());
+        h[16..24].copy_from_slice(&(pages * 52).to_le_bytes());
+        h[24..32].copy_from_slice(&52u64.to_le_bytes());
+        h[40..48].copy_from_slice(&52u64.to_le_bytes());
+        FormulaDevice { pos: 0, len: pages * 52, first: seal(&h), other: seal(&[0u8; 48]), reads: 0 }
+    }
+}
+impl std::io::Read for FormulaDevice {
+    fn read(&mut self, buf: &mut [u8]) -> std::io::Result<usize> {
+        self.reads += 1;
+        let n = (buf.len() as u64).min(self.len.saturating_sub(self.pos)) as usize;
+        let mut done = 0;
+        while done < n {
+            let page = (self.pos + done as u64) / 52;
+            let off = ((self.pos + done as u64) % 52) as usize;
+            let src = if page == 0 { &self.first } else { &self.other };
+            let k = (52 - off).min(n - done);
+            buf[done..done + k].copy_from_slice(&src[off..off + k]);
+            done += k;
+        }
+        self.pos += n as u64;
+        Ok(n)
+    }
+}
+impl std::io::Seek for FormulaDevice {
+    fn seek(&mut self, p: std::io::SeekFrom) -> std::io::Result<u64> {
+        let t = match p {
+            std::io::SeekFrom::Start(x) => x as i128,
+            std::io::SeekFrom::End(x) => self.len as i128 + x as i128,
+            std::io::SeekFrom::Current(x) => self.pos as i128 + x as i128,
+        };
+        if t < 0 {
+            return Err(std::io::Error::new(std::io::ErrorKind::InvalidInput, "negative position"));
+        }
+        self.pos = t as u64;
+        Ok(self.pos)
+    }
+}
+
+/// whole-file checksum validation of files with 2^k + 3 pages: every page is valid, so the call
+/// walks over all of them; it must return (Ok, or an error), whatever a page counter overflows
+pub fn pagecount(ctx: &Ctx) {
+    let exps: &[u32] = if ctx.tier_thorough { &[8, 15, 16, 24, 31] } else { &[8, 15, 16, 24] };
+    let e = exps[ctx.pick("log2-pages", exps.len())];
+    let pages = (1u64 << e) + 3;
+    ctx.describe(|| format!("E57Reader::validate_crc on a formula device of 2^{e}+3 valid pages of 52 bytes ({} bytes)", pages * 52));
+    let r = guarded(|| E57Reader::validate_crc(FormulaDevice::new(pages)));
+    ctx.ops(pages);
+    match r {
+        Err(pi) => ctx.violation(format!("C08/panic/validate_crc/{}", pi.class()), format!("validate_crc panicked at {} ({}) on a valid file of {pages} pages of 52 bytes", pi.loc, pi.msg)),
+        Ok(Ok(ps)) => {
+            if ps != 52 {
+                ctx.violation("C08/pagecount/wrong-page-size".to_string(), format!("validate_crc returned page size {ps}, 52 expected"));
+            }
+            ctx.nontrivial();
+            ctx.observe_u64(pages);
+        }
+        Ok(Err(err)) => ctx.violation("C08/pagecount/valid-file-refused".to_string(), format!("validate_crc refused a file of {pages} valid pages: {}", crate::harness::err_string(&err))),
+    }
+}
